@@ -41,6 +41,7 @@ func runSubscribe(t *tr.Trace, r *tr.Rand, n int) {
 	layer1(t)
 	corpus(t, r)
 	lateJoiner(t, r)
+	realTimerTeardown(t, r)
 	collisions(t, r)
 	for i := 0; i < n; i++ {
 		seed := r.U64()
@@ -386,6 +387,84 @@ func corpus(t *tr.Trace, r *tr.Rand) {
 			}
 		})
 	}
+	// Changes WHILE an offer is outstanding: the server updates the down
+	// connection, defers the renegotiation, and must send it when the answer
+	// arrives.  What the subscriber was last offered is what it is given
+	// (monitor C07.offer_carries_selection; the deferred flag is part of the
+	// compared state).
+	corpusRun(t, r, "corpus-change-while-offer-outstanding", 4, func(h *hist) {
+		p, m, n, q := h.cs[0], h.cs[1], h.cs[2], h.cs[3]
+		h.join(p, 1, 1)
+		h.join(m, 1, 4)
+		h.join(n, 1, 8)
+		h.join(q, 1, 12)
+		h.reqDefault(m, []string{"video"})
+		h.reqDefault(n, []string{"audio"})
+		h.reqDefault(q, av)
+		h.quiesce()
+		h.establish(p, 1, 1, 0, []string{"audio", "video", "video"})
+		h.quiesce()
+		// m widens its request before answering, then answers
+		h.reqDefault(m, av)
+		h.quiesce()
+		h.answer(m, 1, true)
+		h.quiesce()
+		h.answer(m, 1, true)
+		h.quiesce()
+		// stable: a change is offered at once; a second change is deferred
+		h.reqDefault(m, []string{"video-low"})
+		h.quiesce()
+		h.reqDefault(m, []string{"audio"})
+		h.reqDefault(m, []string{"audio", "video-low"})
+		h.quiesce()
+		h.answer(m, 1, true)
+		h.quiesce()
+		h.answer(m, 1, true)
+		h.quiesce()
+		// the same through requestStream, and narrowing to the same track set
+		h.reqstream(n, 1, false, av)
+		h.quiesce()
+		h.reqstream(n, 1, false, []string{"audio"})
+		h.quiesce()
+		h.answer(n, 1, true)
+		h.quiesce()
+		h.answer(n, 1, true)
+		h.quiesce()
+		// q answers first, then everything changes twice
+		h.answer(q, 1, true)
+		h.reqDefault(q, []string{"video"})
+		h.reqDefault(q, []string{"video-low"})
+		h.quiesce()
+		h.answer(q, 1, true)
+		h.quiesce()
+	})
+	// A stream replaced twice in a row, the second time before the replacing
+	// stream was ever announced; a replacing stream closed / abandoned before
+	// it was announced.  (With the hook; the real-timer variants are below.)
+	corpusRun(t, r, "corpus-replace-chain", 4, func(h *hist) {
+		p, m, n, q := h.cs[0], h.cs[1], h.cs[2], h.cs[3]
+		h.join(p, 1, 1)
+		h.join(m, 1, 4)
+		h.join(n, 1, 8)
+		h.join(q, 1, 12)
+		h.reqDefault(m, av)
+		h.reqDefault(n, []string{"audio"})
+		h.quiesce()
+		h.establish(p, 1, 0, 0, av)
+		h.quiesce()
+		b := h.offer(p, 2, 0, 1, "g")
+		c := h.offer(p, 3, 0, 2, "g")
+		h.obs()
+		h.timer(c)
+		h.timer(b)
+		h.quiesce()
+		h.establish(p, 4, 0, 3, av)
+		h.quiesce()
+		b = h.offer(p, 5, 0, 4, "g")
+		h.closeUp(p, 5)
+		h.timer(b)
+		h.quiesce()
+	})
 	// A permission change racing an offer: `unpresent` has been applied by the
 	// publisher's loop, its permissionsChangedAction (which closes the streams)
 	// is still queued, and the loop reads `offer B replace A`: A is deleted by
@@ -537,6 +616,70 @@ func lateJoiner(t *tr.Trace, r *tr.Rand) {
 				rec.up.Kinds(), n.c.DownIds(), m.c.DownIds()))
 		}
 	})
+}
+
+// ---------------------------------------------------------------- real timers
+
+// Teardown through the REAL goroutines of pushConn (no hook: the hook re-states
+// their body and cannot see a change of it).  When they run depends on the
+// wall clock: nothing is written to the trace, the generic monitors are off,
+// and the monitor polls: whatever the timing, every subscriber that held the
+// replaced stream must END UP without it.
+func realTimerTeardown(t *tr.Trace, r *tr.Rand) {
+	type variant struct {
+		name string
+		body func(h *hist, p *cli)
+	}
+	vs := []variant{
+		{"replace-once", func(h *hist, p *cli) { h.offer(p, 2, 0, 1, "g") }},
+		{"replace-twice", func(h *hist, p *cli) { h.offer(p, 2, 0, 1, "g"); h.offer(p, 3, 0, 2, "g") }},
+		{"replace-thrice", func(h *hist, p *cli) { h.offer(p, 2, 0, 1, "g"); h.offer(p, 3, 0, 2, "g"); h.offer(p, 4, 0, 3, "m") }},
+		{"replace-then-close", func(h *hist, p *cli) { h.offer(p, 2, 0, 1, "g"); h.closeUp(p, 2) }},
+		{"replace-twice-then-leave", func(h *hist, p *cli) { h.offer(p, 2, 0, 1, "g"); h.offer(p, 3, 0, 2, "g"); h.leave(p, 1) }},
+	}
+	for _, v := range vs {
+		v := v
+		corpusRun(t, r, "real-timers-"+v.name, 3, func(h *hist) {
+			h.nomodel, h.onlyMonitor = true, "teardown_real_timers"
+			p, m, n := h.cs[0], h.cs[1], h.cs[2]
+			h.join(p, 1, 1)
+			h.join(m, 1, 4)
+			h.join(n, 1, 8)
+			h.reqDefault(m, av)
+			h.reqDefault(n, []string{"audio"})
+			h.quiesce()
+			if h.establish(p, 1, 0, 0, av) == nil {
+				h.tainted = true
+				return
+			}
+			h.quiesce()
+			if h.tainted || len(m.c.DownIds()) != 1 || len(n.c.DownIds()) != 1 {
+				h.tainted = true // the stream to be replaced was not established in time
+				return
+			}
+			v.body(h, p)
+			for _, u := range h.ups {
+				u.timers = 0 // the real goroutines fire, not the harness
+			}
+			deadline := time.Now().Add(5 * time.Second)
+			ok := false
+			for time.Now().Before(deadline) {
+				h.drain()
+				for h.pumpAny() {
+				}
+				if !has(m.c.DownIds(), "s1") && !has(n.c.DownIds(), "s1") {
+					ok = true
+					break
+				}
+				time.Sleep(10 * time.Millisecond)
+			}
+			h.check("teardown_real_timers")
+			if !ok {
+				h.fail("teardown_real_timers", fmt.Sprintf("%s: 5 s after stream 1 was replaced its subscribers still hold it (client 1: %v, client 2: %v); "+
+					"they were sent neither a close nor a replacing offer", v.name, m.c.DownIds(), n.c.DownIds()))
+			}
+		})
+	}
 }
 
 // ---------------------------------------------------------------- id collisions
